@@ -114,6 +114,12 @@ func c07(r *Report) propMeta {
 	// the voter-power bound rests on restake's total-power computation and its unstake / undelegate guards
 	r.Include("C16", "C16.R2", "C16.R4", "C16.R8")
 
+	r.Rule("C07.lint", "E8 module lint: no nondeterminism / process-local state in x/feeds")
+	r.ModuleLint("module-lint", "feeds", 20)
+
+	r.Rule("C07.iter", "E14 store-iterator loops run to exhaustion")
+	r.IteratorLoopCensus("iter", []string{"x/feeds/"}, map[string]string{"x/feeds/keeper.Keeper.GetSignalTotalPowersByPower": "stops after `limit` entries of the descending by-power index: the top-N signals"}, 3)
+
 	return propMeta{
 		Decided: []string{
 			"R1 the power handed to restake.SetLockedPower is accumulated in sdkmath.Int from each signal's power, with no native-width + or * on message-supplied powers nor through any callee that accumulates in native width (e.g. types.SumPower); the lock is attempted on every path and its error propagates; each power > 0 and signal ids are unique",
@@ -122,6 +128,8 @@ func c07(r *Report) propMeta {
 			"R4 SetSignalTotalPower deletes the index entry built from the STORED record before any new entry is written, writes record and index from one value, removes the record at power 0; total-power store and index have single writers",
 			"R5 current feeds: top MaxCurrentFeeds of the reverse by-power index, kept only when CalculateInterval > 0 (power >= threshold), recomputed every CurrentFeedsUpdateInterval blocks",
 			"R6 every KV-store Get/Has/Delete of x/feeds uses a key builder of x/feeds/types that some Set of the module also uses (a probe of an iteration prefix or of a sibling family is always-empty state)",
+			"lint: the determinism lint (incl. writes to memory held by long-lived objects) over everything reachable from the handlers and blockers of x/feeds",
+			"iter: every KV-store iterator loop of the module's keeper runs until the iterator is exhausted (header is the bare Valid() test, no other way out but panic / error return), except reviewed early stops",
 		},
 		Undecided: []string{"drift of totals over re-vote histories (history arithmetic)", "CalculateInterval numerics", "power lost after voting through paths restake does not guard (slashing)"},
 		Assume:    []string{"msg handlers atomic", "sdkmath.Int exact"},
